@@ -127,3 +127,15 @@ NOTES["C08"] = dict(
     note="The setup loop itself is validated per run (certificate), not proved for all inputs; coarsening quality is not part of the property.",
     technique="per-instance certificate checking of dumped hierarchies against the Galerkin/conformity predicates; Lean SpGEMM theorems (C06)",
 )
+
+NOTES["C17"] = dict(
+    text=("Lean theorems (see Props/C17.lean for the list proved at this commit): the CG and BiCGStab recurrences keep r_k = b - A x_k, the reported "
+          "history is the residual norm of each iterate, the returned iterate is the last one and the loop stops at the first iterate below the "
+          "scaled tolerance or at the limit; inner product and 2-norm over a NaN-extended scalar are non-finite iff an entry is; global "
+          "inner products equal sums of block inner products for every partition; the CG energy step is proved in C10 (cg_step_energy). "
+          "The real sequential and distributed solvers are run on SPD / non-symmetric diagonally dominant systems (exact start, b = 0, zero "
+          "guess, tolerances, limits, layouts with empty ranks); every iterate is recovered by re-running with max_iter = k and the driver "
+          "recomputes its true residual, evaluates the stop rule, compares with the Float model, and checks dot/norm on vectors with NaN/Inf."),
+    note="Partial: rounding drift (1e-6 relative); PCG's mixed residual scaling is not checked (only its use as history perturbation in C09).",
+    technique="Lean 4 proof of the recurrences and stop logic on an executable model; iterate-level correspondence with independent residuals",
+)
